@@ -148,16 +148,25 @@ class Case:
     want_dumper: bool = False
     model: Any = None
     layout: Any = None
+    model_name: str = "M"
+    twin: Any = None                # hostile cases: the same program with harmless names and keys (structure reference)
 
     def build(self):
+        if self.model_kind == "typeddict":
+            from typing import NotRequired, TypedDict
+            ann = {f.name: (opaque_type(f.name) if f.required else NotRequired[opaque_type(f.name)]) for f in self.fields}
+            self.model = TypedDict(self.model_name, ann)
+            self.layout = layout(self.fields, **self.nm)
+            return self
         if self.model_kind == "attrs":
             self.model = make_attrs_model(self.fields)
         elif self.model_kind == "attrs-init":
             self.model = make_attrs_custom_init_model(self.fields)
         elif self.model_kind == "init" or self.kwargs_param:
-            self.model = make_model(self.fields, self.kwargs_param)
+            self.model = make_model(self.fields, self.kwargs_param, name=self.model_name if self.model_name.isidentifier() else "M")
+            self.model.__name__ = self.model.__qualname__ = self.model_name
         else:
-            self.model = make_dataclass_model(self.fields)
+            self.model = make_dataclass_model(self.fields, name=self.model_name)
         self.layout = layout(self.fields, **self.nm)
         return self
 
@@ -252,7 +261,135 @@ def name_mappings():
     }
 
 
-def loader_family(tier="quick"):
+# ------------------------------------------------------------------------------------------ hostile names and keys (C19)
+HOSTILE_ID_GROUPS = {
+    "gen-locals": ["data", "errors", "constructor", "getter"],
+    "gen-locals2": ["value", "sentinel", "e", "result"],
+    "gen-prefixed": ["loader_a", "a", "f_a", "r_a"],
+    "builtins": ["len", "dict", "LoadError", "set"],
+    "keywords": ["class_", "from_", "import_", "None_"],
+    "non-ascii": ["\u00f1", "\u540d\u524d", "\u0394x", "\u00fcber"],
+    "gen-consts": ["known_keys", "required_keys", "has_unexpected_error", "extra"],
+    "gen-misc": ["model_identity", "packed_fields", "data_1", "append_trail"],
+    "dunder-ish": ["_", "__", "_a", "a_"],
+}
+HOSTILE_KEYS = ["it's", 'say "hi"', "back\\slash", "{brace}", "{", "$ref", "${expr}", "line\nbreak",
+                "'] = __import__('os').system('x') #", '"""', "%s %(a)s", "\x00nul", "tab\t", "\u00fcn\u00ef-k\u00f6d", "", " ",
+                "$$", "f'{1/0}'", "\\", "#", "\r", "data", "None"]
+HOSTILE_MODEL_NAMES = ["x y", "a\u00b2b", 'M"; import os #', "1st", "\u00dcn\u00ef", "a.b[c]", "M\nN", "$M", "{M}", "class", "M'", "\\"]
+
+
+def _hostile_fields(ids, with_defaults=True, factories=True):
+    out = []
+    for i, n in enumerate(ids):
+        if i < 2 or not with_defaults:
+            out.append(F(n))
+        elif i == 2:
+            out.append(F(n, O, ("value", "x")))
+        else:
+            out.append(F(n, O, ("factory", list) if factories else ("value", 5)))
+    return out
+
+
+def _rank_names(names, prefix):
+    """harmless names with the same relative order (generated code may sort keys / ids; the structure must be compared
+    between programs whose data sort alike)"""
+    order = {n: i for i, n in enumerate(sorted(set(names)))}
+    # a leading underscore is kept: privacy of a field is a documented layout rule (skipped at dumping), not hostility
+    return {n: ("_" if n.startswith("_") and prefix == "q" else "") + f"{prefix}{order[n]:03d}" for n in names}
+
+
+def _benign_twin_fields(fields):
+    ren = _rank_names([f.name for f in fields], "q")
+    return [FieldSpec(ren[f.name], f.required, f.default, f.kind, None) for f in fields]
+
+
+_KEY_RANK = None
+
+
+def benign_key(k):
+    global _KEY_RANK
+    if _KEY_RANK is None:
+        _KEY_RANK = _rank_names(HOSTILE_KEYS, "key")
+    return _KEY_RANK.get(k, k)
+
+
+def _rename_nm(nm, fields, twin_fields, key_of=benign_key):
+    """the same name_mapping with field ids replaced by the twin's and every string key replaced by key_of(key)"""
+    ren = {f.name: t.name for f, t in zip(fields, twin_fields)}
+    out = dict(nm)
+    if nm.get("map") is not None:
+        def conv(v):
+            if isinstance(v, tuple):
+                return tuple(conv(x) for x in v)
+            return key_of(v) if isinstance(v, str) else v
+        out["map"] = {ren[k]: conv(v) for k, v in nm["map"].items()}
+    for k in ("skip", "only"):
+        if nm.get(k):
+            out[k] = [ren[x] for x in nm[k]]
+    return out
+
+
+def hostile_loader_family(tier="quick"):
+    from adaptix import DebugTrail
+    cases = []
+    quick = tier != "thorough"
+    dts = [DebugTrail.ALL, DebugTrail.DISABLE] if quick else list(DebugTrail)
+    keys = list(HOSTILE_KEYS)
+
+    def add(label, fields, nm, dt, twin_fields=None, **kw):
+        twin_fields = twin_fields or fields
+        tkw = {k: v for k, v in kw.items() if k != "model_name"}
+        c = Case(f"hostile:{label}/{dt.name}/strict", fields, nm, dt, True, **kw)
+        c.twin = Case(f"twin:{label}/{dt.name}/strict", twin_fields, _rename_nm(nm, fields, twin_fields), dt, True, **tkw)
+        cases.append(c)
+    gi = 0
+    for gname, ids in HOSTILE_ID_GROUPS.items():
+        fields = _hostile_fields(ids)
+        twin_fields = _benign_twin_fields(fields)
+        two = fields[:2]
+        two_twin = _benign_twin_fields(two)
+        ks = [keys[(gi * 4 + j) % len(keys)] for j in range(4)]
+        gi += 1
+        for dt in dts:
+            heavy = dt.name == "ALL"
+            add(f"{gname}/plain", fields, {}, dt, twin_fields)
+            add(f"{gname}/hostile-keys", fields, {"map": dict(zip(ids, ks))}, dt, twin_fields)
+            if not (quick and heavy):
+                add(f"{gname}/forbid", fields, {"extra_in": "forbid"}, dt, twin_fields)
+            if gname in ("keywords", "dunder-ish") and not (quick and heavy):
+                add(f"{gname}/notrim", fields, {"trim": False}, dt, twin_fields)
+            if quick:
+                add(f"{gname}/hostile-nested", two, {"map": {ids[0]: (ks[0], ks[1]), ids[1]: (ks[0], ks[2])}}, dt, two_twin)
+            else:
+                add(f"{gname}/hostile-nested", fields,
+                    {"map": {ids[0]: (ks[0], ks[1]), ids[1]: (ks[0], ks[2]), ids[2]: (ks[3], ks[0])}, "extra_in": "forbid"}, dt, twin_fields)
+            if gname in ("gen-locals", "builtins", "keywords", "gen-consts") and not (quick and heavy and gname != "keywords"):
+                kf = _hostile_fields(ids, factories=False)      # a hand-written __init__ cannot declare default factories
+                add(f"{gname}+kwargs/kwargs", kf, {"extra_in": "kwargs"}, dt, _benign_twin_fields(kf), model_kind="init", kwargs_param=True)
+    # every hostile key once more, one per field, over a harmless model
+    plain_fields = [F("a"), F("b"), F("c", O, ("value", 1)), F("d", O, ("factory", dict))]
+    for i in range(0, len(keys), 4):
+        ks = (keys[i:i + 4] + keys[:4])[:4]
+        for dt in dts:
+            nm = {"map": dict(zip("abcd", ks))}
+            if not (quick and dt.name == "ALL"):
+                nm["extra_in"] = "forbid"
+            add(f"keys{i // 4}/map", plain_fields, nm, dt)
+    # hostile model names
+    small = [F("a"), F("b", O, ("value", 1))] if quick else plain_fields
+    for i, mn in enumerate(HOSTILE_MODEL_NAMES):
+        add(f"model-name{i}/plain", small, {}, dts[i % len(dts)], model_name=mn)
+    # keyword keys of a TypedDict are legal field ids
+    for dt in dts:
+        add("typeddict-keywords/plain", [F("from"), F("class"), F("a", O)], {}, dt, [F("q001"), F("q000"), F("q002", O)][:0] or
+            _benign_twin_fields([F("from"), F("class"), F("a", O)]), model_kind="typeddict")
+    return cases
+
+
+def loader_family(tier="quick", group="base"):
+    if group == "hostile":
+        return hostile_loader_family(tier)
     from adaptix import DebugTrail
     models = base_models()
     nms = name_mappings()
